@@ -19,13 +19,17 @@ ValueClasses == {"short_str", "long_str", "int", "bool", "float", "bytes_ok", "b
                  "seq_mixed", "seq_badtype", "dict_value", "none_value",
                  "zero_int", "false_bool", "empty_str", "empty_seq",      \* valid values that happen to be falsy
                  "seq_long", "seq_bytes",                                \* sequences whose ELEMENTS need cleaning
-                 "tup_same", "tup_long", "tup_bytes"}                    \* the same, given as a tuple already
+                 "tup_same", "tup_long", "tup_bytes",                    \* the same, given as a tuple already
+                 "bytes_long", "seq_bytes_long"}     \* non-ASCII text given as bytes, longer than the limit: decoded
+                                                     \* first, then cut - the limit counts CHARACTERS
 
 Clean(vc) ==
     CASE vc \in {"short_str", "int", "bool", "float", "zero_int", "false_bool", "empty_str"} -> vc
       [] vc = "empty_seq" -> "empty_tuple"
       [] vc = "long_str" -> "cut_str"              \* cut to the value length limit
       [] vc = "bytes_ok" -> "decoded_str"
+      [] vc = "bytes_long" -> "decoded_cut_str"
+      [] vc = "seq_bytes_long" -> "tuple_decoded_cut"
       [] vc \in {"seq_same", "tup_same"} -> "tuple_same"
       [] vc \in {"seq_long", "tup_long"} -> "tuple_cut"            \* every element cut to the value length limit
       [] vc \in {"seq_bytes", "tup_bytes"} -> "tuple_decoded"      \* every element decoded
